@@ -14,6 +14,7 @@ import (
 	"fmt"
 	"hash/fnv"
 	"os"
+	"reflect"
 	"regexp"
 	"sort"
 	"strings"
@@ -34,7 +35,23 @@ func canonValue(v interface{}) string {
 	return posRe.ReplaceAllString(fmt.Sprintf("%#v", v), "pos")
 }
 
-func declObservable(block string) string {
+// canonSet: a slice / array typed value printed with its members sorted
+func canonSet(v interface{}) string {
+	rv := reflect.ValueOf(v)
+	if rv.Kind() != reflect.Slice && rv.Kind() != reflect.Array {
+		return canonValue(v)
+	}
+	l := make([]string, rv.Len())
+	for i := range l {
+		l[i] = canonValue(rv.Index(i).Interface())
+	}
+	sort.Strings(l)
+	return fmt.Sprintf("%T{%s}", v, strings.Join(l, ", "))
+}
+
+func declObservable(block string) string { return declObservableWith(block, canonValue) }
+
+func declObservableWith(block string, canonValue func(interface{}) string) string {
 	ds := validation.PreprocessDeclarations("http://verif.test/", pa.ParseBlocksContentsString(block))
 	// cascade within the block: last wins, important beats normal
 	type ent struct {
@@ -88,7 +105,14 @@ func computedObservable(block string, props []string) string {
 // worker side: Parent = mode, Block = A, Value = B
 func metaObserve(in wIn) string {
 	if in.Parent == "computed" {
-		return computedObservable(in.Block, in.Props) + "\x00" + computedObservable(in.Value, in.Props)
+		out := computedObservable(in.Block, in.Props) + "\x00" + computedObservable(in.Value, in.Props)
+		if in.Alt != "" {
+			out += "\x00" + computedObservable(in.Alt, in.Props)
+		}
+		return out
+	}
+	if in.Parent == "decl-set" {
+		return declObservableWith(in.Block, canonSet) + "\x00" + declObservableWith(in.Value, canonSet)
 	}
 	return declObservable(in.Block) + "\x00" + declObservable(in.Value)
 }
@@ -419,11 +443,11 @@ func longhandsOf(prop, value string) (string, bool) {
 		}
 		return prop + "-start: " + parts[0] + "; " + prop + "-end: " + parts[1], true
 	case "grid-area":
-		parts := strings.Split(value, " / ")
-		if len(parts) != 4 {
+		m, ok := gridAreaLonghands(value)
+		if !ok {
 			return "", false
 		}
-		return "grid-row-start: " + parts[0] + "; grid-column-start: " + parts[1] + "; grid-row-end: " + parts[2] + "; grid-column-end: " + parts[3], true
+		return joinDecls(m), true
 	case "flex":
 		if len(toks) != 3 {
 			return "", false
@@ -481,12 +505,57 @@ func longhandsOf(prop, value string) (string, bool) {
 	return "", false
 }
 
+// css-grid-1 8.4: grid-area = <grid-line> [ / <grid-line> ]{0,3} is row-start / column-start / row-end /
+// column-end; an omitted line is the <custom-ident> of its opposite / of row-start, else `auto`.
+func gridAreaLonghands(value string) (map[string]string, bool) {
+	parts := strings.Split(value, " / ")
+	if len(parts) < 1 || len(parts) > 4 {
+		return nil, false
+	}
+	from := func(p string) string { // the value an omitted line takes from line p
+		if strings.HasPrefix(p, "my") && !strings.Contains(p, " ") {
+			return p
+		}
+		return "auto"
+	}
+	rs := parts[0]
+	cs, re, ce := from(rs), from(rs), ""
+	if len(parts) >= 2 {
+		cs = parts[1]
+	}
+	if len(parts) >= 3 {
+		re = parts[2]
+	}
+	if len(parts) == 4 {
+		ce = parts[3]
+	} else {
+		ce = from(cs)
+	}
+	return map[string]string{"grid-row-start": rs, "grid-column-start": cs, "grid-row-end": re, "grid-column-end": ce}, true
+}
+
+// the ONE known wrong mapping of grid-area (known finding C08/grid-area-order): the second and third
+// lines are taken as row-end / column-start instead of column-start / row-end
+func gridAreaSwapped(value string) string {
+	m, ok := gridAreaLonghands(value)
+	if !ok {
+		return ""
+	}
+	parts := strings.Split(value, " / ")
+	if len(parts) == 2 { // a / b: row-end := b, column-start := what row-start gives
+		m["grid-row-end"], m["grid-column-start"] = parts[1], m["grid-row-end"]
+		return joinDecls(m)
+	}
+	m["grid-row-end"], m["grid-column-start"] = m["grid-column-start"], m["grid-row-end"]
+	return joinDecls(m)
+}
+
 // ---- pairs
 
 var badNeighbours = []string{"colour: red", "margin-middle: 1px", "-moz-foo: 1", "foo: bar baz", "azimuth: left", "-weasy-nope: 1",
 	"margin-top: red", "color: 12px", "padding: -1px", "display: sideways", "border: 1px 2px", "width: -bogus(1)", "margin:", "--ok: 1"}
 
-func metaCases(rng *vlib.Rng, n int, corpus [][4]string, add func(in wIn, build func(wo wOut, status int, fatal string) []vlib.Case)) int {
+func metaCases(rng *vlib.Rng, n int, corpus [][4]string, unsupported map[string]bool, add func(in wIn, build func(wo wOut, status int, fatal string) []vlib.Case)) int {
 	bases, rejected := validBases()
 	covered := map[string]bool{}
 	for _, b := range bases {
@@ -508,25 +577,39 @@ func metaCases(rng *vlib.Rng, n int, corpus [][4]string, add func(in wIn, build 
 		}
 	}
 	count := 0
-	emit := func(kind, mode string, b base, blockA, blockB string, props []string) {
+	// alt (optional, computed mode): a third block; when the two observables differ and the canonical
+	// one equals the observable of alt the case is tagged `equals-alt` (used to recognise ONE known
+	// wrong mapping exactly, see grid-area)
+	emitT := func(kind, mode, prop string, tags []string, blockA, blockB, alt string, props []string) {
 		count++
-		add(wIn{Kind: "meta", Parent: mode, Block: blockA, Value: blockB, Props: props},
+		add(wIn{Kind: "meta", Parent: mode, Block: blockA, Value: blockB, Alt: alt, Props: props},
 			func(wo wOut, status int, fatal string) []vlib.Case {
 				oa, ob := "", ""
+				tg := append([]string{"prop-" + prop}, tags...)
 				if status == 0 {
-					parts := strings.SplitN(wo.Meta, "\x00", 2)
-					if len(parts) == 2 {
+					parts := strings.Split(wo.Meta, "\x00")
+					if len(parts) >= 2 {
 						oa, ob = parts[0], parts[1]
+					}
+					if len(parts) == 3 && oa != ob && oa == parts[2] {
+						tg = append(tg, "equals-alt")
 					}
 				} else {
 					oa, ob = "worker ok expected", "worker "+fatal
 				}
+				desc := map[string]interface{}{"mode": mode, "canonical": blockA, "variant": blockB,
+					"observable_canonical": truncate(oa, 1500), "observable_variant": truncate(ob, 1500)}
+				if alt != "" {
+					desc["alt"] = alt
+				}
 				return []vlib.Case{{Kind: kind,
-					Coq: fmt.Sprintf("CMeta %d %d", digest(oa), digest(ob)),
-					Desc: map[string]interface{}{"mode": mode, "canonical": blockA, "variant": blockB,
-						"observable_canonical": truncate(oa, 1500), "observable_variant": truncate(ob, 1500)},
-					Tags: []string{"prop-" + b.prop}, Nontrivial: true, Key: kind + "|" + blockA + "|" + blockB}}
+					Coq:  fmt.Sprintf("CMeta %d %d", digest(oa), digest(ob)),
+					Desc: desc,
+					Tags: tg, Nontrivial: true, Key: kind + "|" + blockA + "|" + blockB}}
 			})
+	}
+	emit := func(kind, mode string, b base, blockA, blockB string, props []string) {
+		emitT(kind, mode, b.prop, nil, blockA, blockB, "", props)
 	}
 	for _, c := range corpus {
 		var props []string
@@ -535,6 +618,25 @@ func metaCases(rng *vlib.Rng, n int, corpus [][4]string, add func(in wIn, build 
 		}
 		emit("meta-corpus", c[0], base{prop: "corpus"}, c[1], c[2], props)
 	}
+	// a table entry (valid CSS) the implementation drops, and that is not a documented unsupported
+	// value (corpus/C08/unsupported.tsv): a valid declaration is lost
+	for _, rj := range rejected {
+		if unsupported[rj] {
+			continue
+		}
+		prop := strings.SplitN(rj, ":", 2)[0]
+		count++
+		rj := rj
+		add(wIn{Kind: "meta", Parent: "decl", Block: rj, Value: rj},
+			func(wo wOut, status int, fatal string) []vlib.Case {
+				oa, ob := "accepted (valid CSS: value table of go/cmd/c08/grammar.go)", "dropped: "+strings.SplitN(wo.Meta, "\x00", 2)[0]
+				return []vlib.Case{{Kind: "meta-accept", Coq: fmt.Sprintf("CMeta %d %d", digest(oa), digest(ob)),
+					Desc: map[string]interface{}{"declaration": rj, "expected": oa, "implementation": ob},
+					Tags: []string{"prop-" + prop}, Nontrivial: true, Key: "meta-accept|" + rj}}
+			})
+	}
+	// the grammar-driven order stream (perm.go): systematic, before the random variants
+	permCases(rng.Fork(), emitT) // emitT counts
 	for i := 0; count < n && i < 4*n; i++ {
 		r := rng.Fork()
 		// every base is visited round-robin, the variant kind is random
@@ -568,7 +670,11 @@ func metaCases(rng *vlib.Rng, n int, corpus [][4]string, add func(in wIn, build 
 		case 4: // shorthand vs longhands
 			sb := shorthandBases[r.Intn(len(shorthandBases))]
 			if lh, ok := longhandsOf(sb.prop, sb.value); ok {
-				emit("meta-shorthand", "computed", sb, sb.decl(), lh, sb.names)
+				alt := ""
+				if sb.prop == "grid-area" {
+					alt = gridAreaSwapped(sb.value)
+				}
+				emitT("meta-shorthand", "computed", sb.prop, nil, sb.decl(), lh, alt, sb.names)
 			}
 		case 5, 6: // var()
 			top := pa.RemoveWhitespace(toks)
